@@ -33,6 +33,11 @@ DECAYS = [0.125, 0.25, 0.5, 0.0, 1.0, -0.5]
 THRESHOLDS = [0.9, 0.5, 0.0, 0.25, 0.75, 1.0, 0.625, -1.0]
 
 
+# what a scripted worker does with its own WorkerMemory (None = SimpleWorker: exactly one entry per step)
+MEM_POLICIES = [["window", 2], "none", ["pre", 2], "double", ["window", 0], ["window", 1], ["pre", 1], ["window", 3]]
+MEM_POLICIES_DEEP = MEM_POLICIES + [["window", 4], ["window", 5], ["pre", 5], ["pre", 9]]
+
+
 class Runaway(BaseException):
     """raised by a stub once it has been invoked far beyond the configured budget, so that a loop that lost
     its bound is cut short instead of spinning until the watchdog fires (BaseException: not swallowed by
@@ -163,7 +168,11 @@ class C18(Check):
             "never repeating, alternating, valid at attempt k (3 valid kinds), raising at k, echoing the error context (with/without "
             "healing at k), reacting to the error id} x {real Chaperone with 4 or 2 strategies, scripted Chaperone with per-output "
             "error traces incl. empty/None}; swarm = max_regenerations x max_steps_per_worker x entropy_threshold x worker family "
-            "{stuck repeat, never repeating, alternating, period 3, marker at (w,j), step raises at (w,j), factory raises at w}; "
+            "{stuck repeat, never repeating, alternating, period 3, marker at (w,j), step raises at (w,j), factory raises at w} x "
+            "what the workers do with their OWN WorkerMemory {one entry per step (SimpleWorker), sliding window of the last 0..6 "
+            "entries, never written (a Worker keeping its own transcript), handed out with 0..9 entries already on record (pooled / "
+            "restored worker), two entries per step} - modelled: the hints each factory call receives and the step count each "
+            "apoptosis event reports are compared; "
             "tool = max_iterations x provider family {always tools, plain at k, empty/None tool list at k, raises at k, stop on tool "
             "error, never-repeating chained calls, by-prompt (top-level vs. sub-agent prompts)} x tools {ok, raising, unknown, "
             "sub-agent = nested transcribe_with_tools(limit -1..4, auto on/off) on the same nucleus up to nesting depth 0..3, "
@@ -179,7 +188,9 @@ class C18(Check):
             "non-default Nucleus.base_energy_cost/max_retries - none of which the model sees, so any effect on an observation is a "
             "mismatch. non-trivial = at least one environment invocation; distinct by case content")
     LEVEL_TEXT = ("Coq theorems for ALL generator / validator / worker / factory / provider / tool functions and all integer limits about "
-                  "hand-written models of ChaperoneLoop.heal, RegenerativeSwarm.supervise/_run_worker and Nucleus.transcribe_with_tools "
+                  "hand-written models of ChaperoneLoop.heal, RegenerativeSwarm.supervise/_run_worker (also with factory + workers as "
+                  "ONE state machine over an arbitrary state type: workers own, trim, pre-fill or never write their memory, share "
+                  "state; any entry state and worker counter; any number of consecutive calls) and Nucleus.transcribe_with_tools "
                   "(structural recursion on the loops' own bounds): call-count bounds, error threading, HEALED/VALID only with a "
                   "validator-accepted structure, otherwise tagged with confidence 0, success only with a marker, <= max_iterations tool "
                   "rounds + 1 completion for EVERY activation of the tool loop (outermost or nested at any depth through tools that "
@@ -196,7 +207,9 @@ class C18(Check):
                "interns the strings; md5[:8] of the worker outputs used is checked to be collision-free)",
                "Chaperone.fold_enhanced is an oracle (tabulated per output on a fresh Chaperone); Mitochondria.execute_tool_call is "
                "an oracle that never raises (it turns a tool's exception, including a nested call's provider exception, into an "
-               "error result); summarizer = create_default_summarizer()",
+               "error result); summarizer = create_default_summarizer() (its hints are parsed back into (steps attempted, stuck "
+               "flag); a worker's memory is modelled as the list of recorded output ids, task_history and output_history having "
+               "the same length under every scripted memory policy)",
                "tool loop re-entrancy: a tool does at most ONE thing with the nucleus per invocation (nested transcribe_with_tools | "
                "transcribe | clear_log | nothing); the Nucleus state the model carries is transcription_log; the model's nesting fuel "
                "(8) exceeds every generated nesting depth (<= 3) and exhaustion would show as the observation [-996] "
@@ -436,6 +449,8 @@ class C18(Check):
                     c["wk"] = "proto"
                 if i % 5 == 3:
                     c["timeout"] = [0.0, 1e-9, 30.0][i % 3]
+                if i % 7 == 5 and "wk" not in c:
+                    c = {"kind": k, "mem": MEM_POLICIES[(i // 7) % len(MEM_POLICIES)], **c}
             if k == "tool":
                 if i % 4 == 2:
                     c["acc"] = True
@@ -517,6 +532,28 @@ class C18(Check):
                 if i % 2:
                     c["loud"] = True
                 out.append(c)
+        # swarm: workers that own their memory -- sliding window, never recording, pooled / restored with history already
+        # on record, two entries per step -- against every worker family; the budgets are the swarm's, not the worker's
+        mfams = fams if deep else ([f for f in fams if f[0] in ("stuck", "fresh", "alt", "per3", "aab")]
+                                   + [("marker", 0, 3, 4, -1), ("marker", 1, 1, 3, -1), ("marker", 2, 3, 5, -1),
+                                      ("raise", 1, 2, -1), ("raise", 0, 0, -1), ("facraise", 1, 4)])
+        for fam in mfams:
+            for mg in (0, 2) if not deep else (0, 1, 2, 3, 4, -1):
+                for ms in (0, 1, 2, 3, 4, 5) if not deep else (0, 1, 2, 3, 4, 5, 6, 7, -1):
+                    for pol in MEM_POLICIES[:7] if not deep else MEM_POLICIES_DEEP:
+                        i += 1
+                        again = (1 + i % 2) if i % 6 == 0 else 0
+                        thr = [0.9, 0.5, 0.0][i % 3]
+                        fac, tab, d = self._swarm_table(fam, (max(mg, 0) + 1) * (again + 1) + 2, max(ms, 0) + 2)
+                        c = {"kind": "swarm", "mem": pol, "max_regen": mg, "max_steps": ms, "thr": thr, "fam": fam[0],
+                             "fac": fac, "beh": tab, "dflt": d}
+                        if again:
+                            c["again"] = again
+                        if i % 4 == 0:
+                            c["loud"] = True
+                        if i % 9 == 0:
+                            c["timeout"] = 30.0
+                        out.append(c)
         # tool loop: max_iterations / auto_execute omitted (= 10 / True)
         R = lambda c, calls: ["resp", c, calls]
         dprovs = [{"fam": "script", "items": [], "dflt": R(1, [0])},
@@ -649,6 +686,9 @@ class C18(Check):
             case["loud"] = True
         if rng.random() < 0.3:
             case["wk"] = "proto"
+        elif rng.random() < 0.4:
+            case = {"kind": "swarm", "mem": rng.choice([["window", rng.randint(0, 6)], "none", ["pre", rng.randint(0, 9)], "double",
+                                                        ["window", rng.randint(0, 3)], "none"]), **case}
         if rng.random() < 0.2:
             case["timeout"] = rng.choice([0.0, 1e-9, 0.001, 30.0])
         return case
@@ -913,6 +953,21 @@ class C18(Check):
                 self._memory.add_attempt(task, out, f"no completion marker at step {n}" if n % 2 == 0 else None)
                 return out
 
+        class TranscriptWorker:
+            """a Worker that keeps its own transcript and never writes to its WorkerMemory"""
+
+            def __init__(self, name, work):
+                self.id, self._work, self.memory, self.transcript = name, work, RS.WorkerMemory(), []
+
+            def step(self, task):
+                out = self._work(task, self.memory)
+                self.transcript.append((task, out))
+                return out
+
+        mem = case.get("mem")      # what the workers do with their own WorkerMemory (None: one entry per step)
+        if proto and mem is not None:
+            raise AssertionError("harness: 'wk' and 'mem' are not combined")
+
         def factory(name, hints):
             w = int(name.split("_")[1]) - 1
             spawned.append(w)
@@ -937,7 +992,19 @@ class C18(Check):
                 if seen_strings.setdefault(h, s) != s:
                     raise AssertionError("harness: md5[:8] collision between scripted outputs")
                 steps[w].append(s)
+                if isinstance(mem, list) and mem[0] == "window":      # bounded context: keep the last k entries
+                    for hist in (memory.task_history, memory.output_history):
+                        del hist[:max(0, len(hist) - mem[1])]
+                elif mem == "double":                                  # the work function records the attempt itself
+                    memory.add_attempt(task, s)
                 return s
+            if mem == "none":
+                return TranscriptWorker(name, work)
+            if isinstance(mem, list) and mem[0] == "pre":             # a pooled / restored worker: history already on record
+                m0 = RS.WorkerMemory()
+                for _ in range(mem[1]):
+                    m0.add_attempt("earlier task", "restored")
+                return RS.SimpleWorker(id=name, work_function=work, memory=m0)
             return ProtoWorker(name, work) if proto else RS.SimpleWorker(id=name, work_function=work)
 
         kw = {"entropy_threshold": case["thr"], "max_steps_per_worker": case["max_steps"], "max_regenerations": case["max_regen"]}
@@ -955,6 +1022,24 @@ class C18(Check):
         def parse_out(s):
             m = re.search(r"(\d+)", s)
             return int(m.group(1)) if m else -1
+
+        def parse_hints(hs):
+            """hints handed to the factory (default summarizer) -> [steps the previous worker is said to have
+            attempted (0: no such hint), 'got stuck repeating' hint present]"""
+            att, stuck = 0, 0
+            for h in hs:
+                m = re.fullmatch(r"Previous worker attempted: (\d+) steps", h)
+                if m:
+                    att = int(m.group(1))
+                elif h.startswith("Worker got stuck repeating same output"):
+                    stuck = 1
+                elif not h.startswith("Encountered errors: "):
+                    att = -5
+            return [att, stuck]
+
+        def parse_details(d):
+            m = re.fullmatch(r"Terminated after (\d+) steps", d)
+            return int(m.group(1)) if m else -5
 
         runs, obs, other = [], [], None
         n_ap = n_rg = 0        # apoptosis / regeneration events recorded on the swarm before the call in progress
@@ -989,7 +1074,7 @@ class C18(Check):
                     code = 0
                 else:
                     code = 1
-                wlines.append([20, w - w0, len(ss), code])
+                wlines.append([20, w - w0, len(ss), code] + parse_hints(hints_seen[w0 + len(wlines)]))
             if res is None:
                 obs += [[2, 0, 0, 0, 0, len(rsp), 0, -1]] + wlines
                 # events the interrupted call left on the object are not part of a later call's result
@@ -1001,6 +1086,7 @@ class C18(Check):
             obs += [[2, 1, int(bool(res.success)), int(out is not None), parse_out(out) if out is not None else 0,
                      len(rsp), len(res.apoptosis_events) - n_ap, final - w0 if final is not None else -1]] + wlines
             obs += [[21, wid(r.old_worker_id) - w0, wid(r.new_worker_id) - w0] for r in new_rg]
+            obs += [[22, wid(a.worker_id) - w0, parse_details(a.details)] for a in res.apoptosis_events[n_ap:]]
             n_ap, n_rg = len(res.apoptosis_events), len(res.regeneration_events)
             run["res"] = {"success": bool(res.success), "output": out, "total": res.total_workers_spawned,
                           "final": final if final is not None else -1}
@@ -1277,6 +1363,9 @@ class C18(Check):
             body = (f"{clist([cbool(b) for b in case['fac']])} "
                     f"{clist([clist([st(s) for s in row]) for row in case['beh']])} {st(case['dflt'])} "
                     f"{cq(Fraction(case['thr']))}%Q {cz(case['max_regen'])} {cz(case['max_steps'])}")
+            m = case.get("mem")
+            body += " " + ("MRecord" if m is None else "MNone" if m == "none" else "MDouble" if m == "double"
+                           else f"(MWindow {cnat(m[1])})" if m[0] == "window" else f"(MPre {cnat(m[1])})")
             if case.get("again"):
                 return f"(CSwarmSeq {body} {cnat(1 + case['again'])})"
             return f"(CSwarm {body})"
@@ -1413,6 +1502,12 @@ class C18(Check):
         for n, run in enumerate(t["runs"]):
             v = self._mon_swarm_run(case, run, n == 0)
             if v is not None:
+                m = case.get("mem")
+                if m is not None:
+                    v.what += " [workers " + ("keep their own transcript and never write their WorkerMemory" if m == "none" else
+                                              "record every attempt twice" if m == "double" else
+                                              f"keep only the last {m[1]} memory entries before each step is recorded" if m[0] == "window"
+                                              else f"are handed out with {m[1]} history entries already on record") + "]"
                 if n:
                     v.what += f" [in supervise() call #{n + 1} on the same RegenerativeSwarm]"
                 return v
@@ -1495,7 +1590,7 @@ class C18(Check):
             return tags + [k + ":error"]
         for flag, tag in (("loud", "silent=False(stdout captured)"), ("again", "consecutive-calls-on-one-object"),
                           ("omit", "defaults-omitted"), ("wk", "protocol-worker-with-error-memory"),
-                          ("timeout", "step_timeout"), ("acc", "accessors-interleaved"), ("cfg", "provider-config"),
+                          ("timeout", "step_timeout"), ("mem", "worker-owns-its-memory"), ("acc", "accessors-interleaved"), ("cfg", "provider-config"),
                           ("nuc", "nucleus-fields"), ("autoprov", "auto-detected-MockProvider")):
             if flag in case and case[flag] is not None and case[flag] is not False and case[flag] != []:
                 tags.append(f"{k}:{tag}")
@@ -1522,6 +1617,13 @@ class C18(Check):
             tags.append(f"swarm:max_steps={case['max_steps']}")
             tags.append(f"swarm:workers={len(trace['spawned'])}")
             tags.append(f"swarm:fam={case.get('fam')}")
+            m = case.get("mem")
+            if m is not None:
+                tags.append("swarm:mem=" + (m if isinstance(m, str) else m[0]))
+                def recorded(n):       # entries on the worker's record after n steps
+                    return 0 if m == "none" else 2 * n if m == "double" else min(n, m[1] + 1) if m[0] == "window" else n + m[1]
+                if any(recorded(len(ss)) != len(ss) for ss in trace["steps"].values()):
+                    tags.append("swarm:recorded-history-differs-from-steps-run")
             ms = max(0, case["max_steps"])
             if any(len(s) < ms and (not s or (s[-1] is not None and not has_marker(s[-1]))) for s in trace["steps"].values()) and ms > 0:
                 tags.append("swarm:entropy-collapse")
@@ -1563,6 +1665,26 @@ class C18(Check):
         if k == "heal" and case["gen"]["fam"] == "script":
             items = common.shrink_list(case["gen"]["items"], lambda it: pred({**case, "gen": {**case["gen"], "items": it}}))
             return {**case, "gen": {**case["gen"], "items": items}}
+        if k == "swarm":
+            v0 = self.monitor(case, *self._safe_impl(case))
+            what0 = v0.what if v0 is not None else None
+
+            def same(c):       # same signature AND the same violation text (it quotes worker, count and limits)
+                if not pred(c):
+                    return False
+                v = self.monitor(c, *self._safe_impl(c))
+                return v is not None and v.what == what0
+            for key in ("again", "loud", "timeout"):               # aspects that may be irrelevant to the failure
+                if key in case:
+                    c2 = {x: y for x, y in case.items() if x != key}
+                    if same(c2):
+                        case = c2
+            rows = common.shrink_list(case["beh"], lambda b: same({**case, "beh": b}))
+            case = {**case, "beh": rows}
+            if same({**case, "fac": []}):
+                case = {**case, "fac": []}
+            head = ("kind", "mem", "wk", "max_regen", "max_steps", "thr")      # limits first when the case is printed
+            return {**{x: case[x] for x in head if x in case}, **{x: y for x, y in case.items() if x not in head}}
         if k == "tool":
             if case.get("more"):
                 more = common.shrink_list(case["more"], lambda m: pred({**case, "more": m}))
